@@ -146,6 +146,7 @@ def map(
     to_process = []
     to_render = []
     to_scatter = []
+    operations = []
     for layer in layers:
         if not isinstance(layer, Layer):
             raise TypeError(f"Expected Layer object, got {type(layer)} instead. ")
@@ -165,6 +166,7 @@ def map(
             to_scatter.append({"data": layer.data, "params": layer.kwargs})
         else:
             to_process.append(layer.data)
+            operations.append(layer.operation)
             to_render.append(
                 {
                     "mode": layer.mode,
@@ -390,14 +392,22 @@ def map(
         ndim=ndim,
     )
 
-    # Apply operation along depth
-    binned = getattr(np, operation)(binned, axis=1)
-
-    # Handle thick maps
-    if thick and ((operation == "sum") or (operation == "nansum")):
-        binned *= zspacing
-        for layer in to_render:
-            layer["unit"] = layer["unit"] * dataz.unit
+    # Apply operation along depth: each layer uses its own operation (the one passed
+    # to the function call only applies to the layers that do not define one)
+    reduced = []
+    counter = 0
+    for ind in range(len(to_render)):
+        nrows = 1 if scalar_layer[ind] else 3
+        layer_binned = getattr(np, operations[ind])(
+            binned[counter : counter + nrows, ...], axis=1
+        )
+        # Handle thick maps
+        if thick and (operations[ind] in ("sum", "nansum")):
+            layer_binned *= zspacing
+            to_render[ind]["unit"] = to_render[ind]["unit"] * dataz.unit
+        reduced.append(layer_binned)
+        counter += nrows
+    binned = np.concatenate(reduced, axis=0)
 
     # Mask NaN values
     mask = np.isnan(binned[-1, ...])
